@@ -181,7 +181,18 @@ def run_random(shard, ctx):
             rows[k] = ["F", f"big{k}", 1, rng.randint(2**32, 6 * 10**9), 1, []] if rows[k][0] == "F" else ["G", rng.randint(2**32, 5 * 10**9), "scaffold"]
             ctx.count("class:scaffold-longer-than-2^32")
         try:
-            ia = _mk(rows)
+            if i % 4 == 2:
+                # the caller's row list is the caller's: re-using it afterwards must not reach into the assembly
+                from tola.assembly.indexed_assembly import IndexedAssembly
+                from tola.assembly.scaffold import Scaffold
+
+                buf = list(build_scaffold(["s", rows]).rows)
+                ia = IndexedAssembly("x", scaffolds=[Scaffold("s", buf)])
+                buf.reverse()
+                del buf[len(buf) // 2 :]
+                ctx.count("class:callers-row-list-reused-after-construction")
+            else:
+                ia = _mk(rows)
         except Exception as e:  # noqa: BLE001
             ctx.violation(f"indexing-scaffold-raised-{type(e).__name__}", f"IndexedAssembly(...) raised {type(e).__name__}: {e}; rows={rows[:6]}", {"kind": "query", "rows": rows, "a": 1, "b": 1})
             continue
@@ -313,6 +324,7 @@ def gates(c, tier):
         "class:scaffold-longer-than-2^32": 50,
         "class:lookup-after-refused-duplicate-add": 50,
         "class:assemblies-derived-from-one-another": 50,
+        "class:callers-row-list-reused-after-construction": 1000,
         "class:scaffold-added-after-lookups": 500,
         "class:same-query-after-editing-the-first-answer": 1000,
         "monitor_evals:find_overlaps": 1000,
